@@ -525,9 +525,9 @@ class t2data(object):
     def get_extra_precision_filename(self):
         """Returns name of extra precision data file name, based on the name
         of the data file."""
-        from os.path import splitext
+        from os.path import splitext, basename
         base, ext = splitext(self.filename)
-        if base[0].isupper(): pext = 'PDAT'
+        if basename(base)[:1].isupper(): pext = 'PDAT'
         else: pext = 'pdat'
         return '.'.join((base, pext))
     extra_precision_filename = property(get_extra_precision_filename)
